@@ -392,7 +392,10 @@ class Ctx:
         log(f"[{self.prop}] {self.tier} seed={self.seed} obligations={len(self.discharged)}/{len(self.obligations)} "
             f"l1={self.l1_cases} disagreements={len(self.l1_disagreements)} known={sum(v['count'] for v in self.known_hits.values())} "
             f"violations={len(self.violations)} wall={wall:.1f}s")
-        shutil.rmtree(self.tmp, ignore_errors=True)
+        if os.environ.get("VERIF_KEEP_TMP"):
+            log(f"[{self.prop}] kept {self.tmp}")
+        else:
+            shutil.rmtree(self.tmp, ignore_errors=True)
         return rc
 
 
